@@ -1268,7 +1268,7 @@ class C18(Prop):
         ansi = lambda ls: [re.sub(r'" (YEL|NOR|CYN|HIY|HIC) "', "", l) for l in ls]
         return [
             ("srcDumpTrace", ansi(L(sim, "char* dump_trace (int how) {", "fflush (current_log_file);",
-                                    r"log_message \(NULL, \"\\t\"|get_line_number|get_trace_details|num_arg =|num_local =|ret =|strcmp|for \(p|case FRAME|switch|if \(\(how|if \(current_prog|if \(csp|return",
+                                    r"log_message \(NULL, \"\\t\"|get_line_number|get_trace_details|num_arg =|num_local =|ret =|strcmp|for \(p|case FRAME|switch|if \(\(how|if \(num_arg|if \(current_prog|if \(csp|return",
                                     "simulate:dump_trace"))),
             ("srcTraceDetails", L(sim, "static void get_trace_details (", "ftd->num_local = func_entry->def.num_local;", None, "simulate:get_trace_details")),
             ("srcGetLineNumber", L(sim, "char* get_line_number (const char *p, const program_t * progp) {", "return buf;\n}", None, "simulate:get_line_number")),
@@ -1288,6 +1288,15 @@ class C18(Prop):
         g1, c1 = self._loop_guard(first, r"line_tmp", r"\*\s*p1", "translate_absolute_line:pass1")
         fb = self._body(sim, "static int find_line", "find_line")
         g2, c2 = self._loop_guard(fb, r"offset", r"\*\s*lns", "find_line:scan")
+        # dump_trace / get_svalue_trace: the innermost frame shows no variables while it is still being set up
+        db = self._body(sim, "char* dump_trace (int how) {", "dump_trace")
+        gb = self._body(sim, "array_t* get_svalue_trace (int how) {", "get_svalue_trace")
+        ub = r"if\s*\(\s*num_arg\s*!=\s*-1\s*&&\s*fp\s*\+\s*num_arg\s*\+\s*num_local\s*-\s*(\d+)\s*(<=|>=|==|!=|<|>)\s*sp\s*\)\s*num_arg\s*=\s*-1\s*;"
+        mu1, mu2 = re.search(ub, db), re.search(ub, gb)
+        if not mu1 or not mu2 or mu1.groups() != mu2.groups() or len(re.findall(ub, db)) != 1:
+            raise X.TieBroken("dump_trace:unbuilt-frame", "the test that hides the variables of an innermost frame that is still being set up no longer has the shape if (num_arg != -1 && fp + num_arg + num_local - K OP sp) num_arg = -1; once in dump_trace and once in get_svalue_trace")
+        if db.find(mu1.group(0)) < db.rfind("case FRAME_CATCH:"):
+            raise X.TieBroken("dump_trace:unbuilt-frame", "the test is no longer behind the switch for the innermost frame")
         # find_line: is the walk over the runs bounded by an end pointer, and where does that pointer come from?
         uses_end = re.search(r"lns_end|file_info\s*\[\s*0\s*\]", fb)
         m_end = re.search(r"lns_end\s*=\s*\(unsigned char \*\)\s*progp->file_info\s*\+\s*progp->file_info\s*\[\s*0\s*\]\s*;", fb)
@@ -1332,6 +1341,8 @@ class C18(Prop):
         out.append("def pass1Continues (a : Int) (b : Int) : Bool := decide (%s)" % g1)
         out.append("/-- C (src/simulate.c, find_line): `%s` -/" % c2)
         out.append("def scanContinues (a : Int) (b : Int) : Bool := decide (%s)" % g2)
+        out.append("/-- C (src/simulate.c, dump_trace and get_svalue_trace, innermost frame only): `%s` — `d` = sp - fp -/" % mu1.group(0))
+        out.append("def innerUnbuilt (na : Int) (nl : Int) (d : Int) : Bool := decide (na + nl - %s %s d)" % (mu1.group(1), self.LEAN_OP[mu1.group(2)]))
         out.append("/-- C (src/simulate.c, find_line): does the walk over the runs stop at the end pointer `(unsigned char *) file_info +\n"
                    "    file_info[0]` (`if (lns >= lns_end) return 4;` after every `lns += 3`)?  %s -/"
                    % ("YES: " + m_end.group(0) if scan_bounded else "no such test in the source"))
